@@ -199,7 +199,9 @@ def _expand(task, cfg, srv, w):
             V.append(('C10.table', 'request table audit: %s' % core['table']))
         if core['orphan_timers']:
             V.append(('C10.orphan-timer', '%d pending timer(s) belong to no live request after %s' % (core['orphan_timers'], proto.ev_str(ev))))
-        if w.timeout > 0:
+        if not cfg.get('judge_timers', True):
+            pass        # the timeout setting itself is reloaded in this search: how many timers are pending is then not determined by the statement
+        elif w.timeout > 0:
             want = sum(1 for _, inst in Mn if inst is not None and not inst.expired)
             if core['timers'] != want:
                 V.append(('C10.timer-count', '%d request timers pending, expected %d (live instances whose timer has not fired)' % (core['timers'], want)))
@@ -293,7 +295,7 @@ class State:
 class Search:
     def __init__(self, run, services, rules, timeout, ids, alphabet, flags=e1.F_DUMP | e1.F_STATS,
                  nworkers=16, maxdepth=None, maxstates=None, keep_refs=False, pbudget=3, label='', conf_extra='',
-                 record_delta=False, delta=None, delta_complete=None, reload_files=None, reload_tables=None):
+                 record_delta=False, delta=None, delta_complete=None, reload_files=None, reload_tables=None, judge_timers=True):
         self.run = run
         self.b = _build.build()
         self.services, self.rules, self.timeout, self.ids = list(services), list(rules), timeout, list(ids)
@@ -322,6 +324,7 @@ class Search:
         # service table each reload target puts in force (the observer follows the table; without it the observer keeps the initial one)
         self.reload_tables = {self.reload_paths[n]: [tuple(x) for x in t] for n, t in (reload_tables or {}).items()}
         self.cfg['reload_tables'] = self.reload_tables
+        self.cfg['judge_timers'] = judge_timers
         self.delta = {}
         self.states = []
         self.index = {}
@@ -534,7 +537,7 @@ class Search:
                 hist_a = self.history(tgt)
                 hist_b = self.history(frm) + [cev]
                 ser_a = self.states[tgt].serial
-                ser_b = self.states[frm].serial + (1 if ev[0] in ('C', 'C2') else 0)
+                ser_b = self.states[frm].serial + (1 if ev[0] in ('C', 'C2', 'C3') else 0)
                 for suf in self.merge_suffixes(i):
                     outs = []
                     for which, (hist, ser) in enumerate(((hist_a, ser_a), (hist_b, ser_b))):
@@ -555,11 +558,11 @@ class Search:
                                 Mn, V, W = proto.step(self.world, M, e, octx, octx['serial'] + 1, r.out)
                             except Exception:
                                 break
-                            if e[0] in ('C', 'C2'):
+                            if e[0] in ('C', 'C2', 'C3'):
                                 octx['serial'] += 1
                                 octx['cur'][e[1]] = octx['serial']
                             for j, inst in Mn:
-                                if inst is None and j in octx['cur'] and not (e[0] in ('C', 'C2') and e[1] == j):
+                                if inst is None and j in octx['cur'] and not (e[0] in ('C', 'C2', 'C3') and e[1] == j):
                                     octx['old'][j] = octx['cur'].pop(j)
                             M = Mn
                             if e is suf[-1] and stats_lines is not None:
